@@ -13,6 +13,7 @@ pub struct GenericInstantiateContext<'a> {
     pub substitutor: &'a TypeSubstitutor,
     pub resolve_mode: GenericResolveMode,
     instantiating_signatures: Rc<RefCell<HashSet<LuaSignatureId>>>,
+    expanding_alias_operands: Rc<RefCell<HashSet<LuaTypeDeclId>>>,
 }
 
 impl<'a> GenericInstantiateContext<'a> {
@@ -22,6 +23,7 @@ impl<'a> GenericInstantiateContext<'a> {
             substitutor,
             resolve_mode: GenericResolveMode::Value,
             instantiating_signatures: Rc::new(RefCell::new(HashSet::new())),
+            expanding_alias_operands: Rc::new(RefCell::new(HashSet::new())),
         }
     }
 
@@ -34,6 +36,7 @@ impl<'a> GenericInstantiateContext<'a> {
             substitutor,
             resolve_mode: self.resolve_mode,
             instantiating_signatures: self.instantiating_signatures.clone(),
+            expanding_alias_operands: self.expanding_alias_operands.clone(),
         }
     }
 
@@ -46,6 +49,7 @@ impl<'a> GenericInstantiateContext<'a> {
             substitutor: self.substitutor,
             resolve_mode,
             instantiating_signatures: self.instantiating_signatures.clone(),
+            expanding_alias_operands: self.expanding_alias_operands.clone(),
         }
     }
 
@@ -65,6 +69,40 @@ impl<'a> GenericInstantiateContext<'a> {
             signatures: self.instantiating_signatures.clone(),
             signature_id,
         })
+    }
+}
+
+impl<'a> GenericInstantiateContext<'a> {
+    /// Guards the expansion of an alias used as an operand (`keyof A`): `---@alias A keyof A`
+    /// would otherwise expand forever.
+    pub(super) fn enter_alias_operand(
+        &self,
+        type_id: &LuaTypeDeclId,
+    ) -> Option<ExpandingAliasOperandGuard> {
+        if !self
+            .expanding_alias_operands
+            .borrow_mut()
+            .insert(type_id.clone())
+        {
+            return None;
+        }
+
+        Some(ExpandingAliasOperandGuard {
+            aliases: self.expanding_alias_operands.clone(),
+            type_id: type_id.clone(),
+        })
+    }
+}
+
+#[derive(Debug)]
+pub(super) struct ExpandingAliasOperandGuard {
+    aliases: Rc<RefCell<HashSet<LuaTypeDeclId>>>,
+    type_id: LuaTypeDeclId,
+}
+
+impl Drop for ExpandingAliasOperandGuard {
+    fn drop(&mut self) {
+        self.aliases.borrow_mut().remove(&self.type_id);
     }
 }
 
